@@ -8,9 +8,16 @@ var expectedType = map[string]string{"none": "None", "packed-self": "Self", "pac
 // honestPair runs one honest registration (expecting acceptance with the format's attestation type) and one honest
 // assertion with the same credential key.
 func honestPair(c *Ctx, stream, format string, credAlg, attAlg int) {
+	honestPairWith(c, stream, format, credAlg, attAlg, nil)
+}
+
+func honestPairWith(c *Ctx, stream, format string, credAlg, attAlg int, adjust func(*RegSpec)) {
 	r := c.R
 	s := newRegSpec(r, format, credAlg)
 	s.AttAlg = attAlg
+	if adjust != nil {
+		adjust(s)
+	}
 	b := buildRegistration(r, s)
 	op := b.Op()
 	executors["register"](c, stream, op)
@@ -55,6 +62,32 @@ func init() {
 						}
 					}
 				}
+			}
+		}},
+		Stream{"honest.credIdLength", func(c *Ctx) {
+			// benign variation: credential ids of every length 0..1023 (boundaries always, the rest sampled; all of them in the thorough tier)
+			lengths := []int{0, 1, 2, 15, 16, 17, 127, 128, 255, 256, 257, 1022, 1023}
+			if c.Thorough() {
+				lengths = nil
+				for l := 0; l <= 1023; l++ {
+					lengths = append(lengths, l)
+				}
+			} else {
+				for i := 0; i < 6; i++ {
+					lengths = append(lengths, c.R.Intn(1024))
+				}
+			}
+			for _, l := range lengths {
+				l := l
+				f := allFormats[c.R.Intn(len(allFormats))]
+				if l == 0 || l == 1023 || l == 1022 {
+					for _, f2 := range []string{"none", "packed-self", "fido-u2f"} {
+						ca := pick(c.R, credAlgsFor(f2))
+						honestPairWith(c, "honest.credIdLength", f2, ca, pick(c.R, attAlgsFor(f2)), func(s *RegSpec) { s.CredID = c.R.Bytes(l) })
+					}
+				}
+				ca := pick(c.R, credAlgsFor(f))
+				honestPairWith(c, "honest.credIdLength", f, ca, pick(c.R, attAlgsFor(f)), func(s *RegSpec) { s.CredID = c.R.Bytes(l) })
 			}
 		}},
 		Stream{"honest.leadingZeros", func(c *Ctx) {
